@@ -7,6 +7,7 @@ CN = "src/pyunicorn/climate/climate_network.py"
 DT = "src/pyunicorn/core/data.py"
 CD = "src/pyunicorn/climate/climate_data.py"
 GN = "src/pyunicorn/core/geo_network.py"
+SU = "src/pyunicorn/timeseries/surrogates.py"
 RP = "src/pyunicorn/timeseries/recurrence_plot.py"
 
 MUTANTS = [
@@ -153,4 +154,33 @@ MUTANTS = [
    ("src/pyunicorn/climate/mutual_info.py", 'if self._winter_only and self.mi_file.endswith(".data"):', 'if False:')]},
  {"name": "c01_jrn_diagonal_stride", "property": "C01", "edits": [
    ("src/pyunicorn/timeseries/joint_recurrence_network.py", "        A.flat[::A.shape[0]+1] = 0\n", "        A.flat[::self.N+1] = 0\n")]},
+ {"name": "c06_closeness_no_restore", "property": "C06", "edits": [
+   (NW, """            #  Reverse changes to weightedPathLengths
+            path_lengths[unconnected_pairs] = np.inf
+""", "")]},
+ {"name": "c06_apl_no_restore", "property": "C06", "edits": [
+   (NW, """            #  Reverse changes to path_lengths
+            path_lengths[unconnected_pairs] = np.inf
+""", "")]},
+ {"name": "c06_density_threshold_sorts_in_place", "property": "C06", "edits": [
+   (CN, "flat_corr = self.similarity_measure().copy()", "flat_corr = self.similarity_measure()"),
+   (CN, "        flat_corr = flat_corr.flatten()\n", "        flat_corr = flat_corr.reshape(-1)\n")]},
+ {"name": "c06_white_noise_no_copy", "property": "C06", "edits": [
+   (SU, "surrogates = self.original_data.copy()", "surrogates = self.original_data")]},
+ {"name": "c06_inv_corr_distance_in_place", "property": "C06", "edits": [
+   (CN, "m = self.correlation_distance().copy()", "m = self.correlation_distance()")]},
+ {"name": "c06_corr_noise_in_place", "property": "C06", "edits": [
+   (SU, "surrogates = self.original_data_fft().copy()", "surrogates = self.original_data_fft()")]},
+ {"name": "c06_mi_normalises_shared_anomaly", "property": "C06", "edits": [
+   ("src/pyunicorn/climate/mutual_info.py", "        anomaly = anomaly.copy()\n", "")]},
+ {"name": "c06_surrogates_alias_caller_array", "property": "C06", "edits": [
+   (SU, "self.original_data = np.array(original_data)", "self.original_data = original_data")]},
+ {"name": "c06_degree_scaled_in_place", "property": "C06", "edits": [
+   (NW, """        k = to_cy(self.outdegree(), DEGREE)
+
+        # initialize node weights""", """        k = self.outdegree()
+        k *= 1
+        k += (k == 0)
+
+        # initialize node weights""")]},
 ]
